@@ -116,6 +116,14 @@ CLAIMED = {
             "(last byte at early end).",
             "Line numbers for files mixing newline conventions, text of all-blank lines, the caret for a position inside indentation and the cut "
             "of indented long lines are unspecified; error positions inside added types are C04's (type-local offset).", "3/C17"),
+    "C18": ("TLA+ relational requirement: Sem!Member3 / Sem!SameScalar for value lists (duplicates = same text x kind) and Sem!Search for patterns; "
+            "TLC enumerates value lists x layouts and patterns of the abstract regex grammar with verdict vectors; named and inline spellings replayed "
+            "through Validate and compared with each other and with TLC; regex Example() values validated by TLC (TraceSem)",
+            "For every enumerated value list in four layouts (inline, one per line with comments, block comments between items, padded) the named rule "
+            "must reject duplicates at its own Check, list its literals in source order through Values/GetAST, and validate every document exactly like "
+            "the inline list and like the membership TLC computed; for every pattern the regex type must report the pattern, its Len as the /P/ token "
+            "length whatever follows, an Example that TLC matches against the pattern, and the same verdicts as the inline regex rule.",
+            "Patterns stay inside the printable-ASCII abstract grammar (12 patterns); lists up to 2/3 items over 10 literals.", "3/C18"),
 }
 
 PENDING_REASON = "check under construction in this session - not claimed yet (no technique switch intended; see DESIGN.md section 3)"
